@@ -2,6 +2,7 @@ package colsim
 
 import (
 	"fmt"
+	"math"
 	"time"
 )
 
@@ -20,7 +21,8 @@ type concProfile struct {
 	indexes                                                                         bool
 	sharedKeys                                                                      float64 // probability that writers insert/upsert the same keys
 	forceKinds                                                                      []Kind
-	mergeKinds                                                                      bool // schema biased to mergeable columns with order-sensitive merges
+	mergeKinds                                                                      bool    // schema biased to mergeable columns with order-sensitive merges
+	farBlocks                                                                       float64 // probability of a layout with rows in blocks 128 and 129 (same latch shards as 0 and 1)
 	stableRows                                                                      [2]int
 	linkDelay                                                                       int
 	indexers                                                                        int  // threads creating bitmap indexes on the primary beside the writers
@@ -109,6 +111,20 @@ func genConc(prop string, seed uint64, run int, p concProfile, av avoid) *Case {
 			if r.Chance(0.5) {
 				pf.Holes = append(pf.Holes, uint32(b)<<14+16000)
 			}
+		}
+	}
+	if pf != nil && len(pf.KeepFull) == 0 && r.Chance(p.farBlocks) {
+		// rows far out: blocks 128 and 129 share their latch shards with blocks 0 and 1
+		pf.Far = []int{128, 129}
+		far := []uint32{128<<14 + 5, 128<<14 + 16383, 129 << 14, 129<<14 + 77}
+		for _, o := range far {
+			if r.Chance(0.7) {
+				pf.Survivors = append(pf.Survivors, o)
+			}
+		}
+		if len(g.cols) > 4 {
+			g.cols = g.cols[:4] // every column gets 130 chunks: keep the collection small
+			cs.Schema = append([]ColSpec{}, g.cols...)
 		}
 	}
 	cs.Cfg.Prefill = pf
@@ -284,6 +300,22 @@ func genConc(prop string, seed uint64, run int, p concProfile, av avoid) *Case {
 			var chain []FStep
 			for tries := 0; tries < 5; tries++ {
 				chain = g.genFilter()
+				if r.Chance(0.5) {
+					// bias: a narrowing step followed by a multi-name WithUnion/Union over indexes and
+					// columns the writers update (the unions read several bitmaps per block)
+					names := func(k int) []string {
+						var ns []string
+						for j := 0; j < k; j++ {
+							if len(g.indexes) > 0 && r.Chance(0.7) {
+								ns = append(ns, g.indexes[r.Intn(len(g.indexes))].Name)
+							} else {
+								ns = append(ns, g.cols[r.Intn(len(g.cols))].Name)
+							}
+						}
+						return ns
+					}
+					chain = []FStep{{Kind: []string{"with", "without"}[r.Intn(2)], Names: names(1)}, {Kind: []string{"withunion", "withunion", "union"}[r.Intn(3)], Names: names(r.Range(2, 3))}}
+				}
 				ok := len(chain) > 0
 				for _, f := range chain {
 					for _, n := range f.Names {
@@ -306,6 +338,57 @@ func genConc(prop string, seed uint64, run int, p concProfile, av avoid) *Case {
 		tp := ThreadProg{Role: "indexer"}
 		var t TxnProg
 		live := []string{}
+		if p.schemaTriggers && r.Chance(0.7) {
+			// template: several triggers on one column, then the earliest is dropped while the
+			// writers are committing to that column (the registry entry of the column is edited)
+			var tc []ColSpec
+			for _, c := range g.cols {
+				if c.Kind != KBool && c.Kind != KKey && c.Name != "expire" {
+					tc = append(tc, c)
+				}
+			}
+			if len(tc) > 0 {
+				col := tc[r.Intn(len(tc))].Name
+				n := r.Range(2, 4)
+				for k := 0; k < n; k++ {
+					t.Ops = append(t.Ops, Op{Kind: "mktrigger", Name: fmt.Sprintf("ltg%d_%d", i, k), Col: col})
+				}
+				t.Ops = append(t.Ops, Op{Kind: "droptrigger", Name: fmt.Sprintf("ltg%d_%d", i, r.Intn(n-1))})
+				if r.Chance(0.5) {
+					t.Ops = append(t.Ops, Op{Kind: "mktrigger", Name: fmt.Sprintf("ltg%d_x", i), Col: col})
+				}
+				tp.Txns = []TxnProg{t}
+				cs.Threads = append(cs.Threads, tp)
+				// the writers concentrate on that column
+				for ti := range cs.Threads {
+					if cs.Threads[ti].Role != "writer" {
+						continue
+					}
+					for xi := range cs.Threads[ti].Txns {
+						for oi := range cs.Threads[ti].Txns[xi].Ops {
+							op := &cs.Threads[ti].Txns[xi].Ops[oi]
+							if op.Kind == "at" && len(op.Writes) > 0 && r.Chance(0.7) {
+								if c, ok := colOf(g.cols, col); ok {
+									wr := Write{Col: col, Val: g.genVal(c), Merge: c.Kind.Mergeable() && r.Chance(0.4)}
+									if wr.Merge && c.Kind.Float() {
+										// float deltas stay small integers: with two NaN operands the payload of the
+										// sum depends on operand order, which the model cannot mirror
+										f := float64(r.Intn(64) - 32)
+										if c.Kind == KFloat32 {
+											wr.Val = Val{U: uint64(math.Float32bits(float32(f)))}
+										} else {
+											wr.Val = Val{U: math.Float64bits(f)}
+										}
+									}
+									op.Writes = append(op.Writes, wr)
+								}
+							}
+						}
+					}
+				}
+				continue
+			}
+		}
 		for k, n := 0, r.Range(1, 2+2*b2i(p.schemaTriggers)); k < n; k++ {
 			switch {
 			case p.schemaSorts && r.Chance(0.6):
